@@ -13,6 +13,7 @@ func concStr(v Value) string {
 	}
 	return s.S
 }
+
 // concStrFork makes a string concrete by forking over the feasible values of its symbolic bytes.
 // If charset != "" the bytes are first split on "all inside charset"; outside, ok=false is returned
 // with the string still symbolic (callers return their error result).
